@@ -193,6 +193,21 @@ Theorem C08_assignment_with_absent_index_is_skipped :
 Proof. exact exec_absent_index. Qed.
 Print Assumptions C08_assignment_with_absent_index_is_skipped.
 
+(* compound assignment `lhs op= rhs` (op in +, ??, ???; built as `lhs = lhs op rhs`): with lhs unset and rhs absent nothing is
+   assigned, so `@sum += $x` / `@v ??= $x` leave the variable unset on records lacking the field *)
+Theorem C08_compound_assignment_of_absent_operands_is_skipped :
+  forall st l o e le, lval_as_expr l = Some le -> eval st le = VAbsent -> eval st e = VAbsent ->
+    exists s, compound l o e = Some s /\ exec st s = Ok st.
+Proof. exact compound_absent_noop. Qed.
+Print Assumptions C08_compound_assignment_of_absent_operands_is_skipped.
+
+(* a ?? b is b exactly when a is absent *)
+Theorem C08_absent_coalescing :
+  forall st a b, (eval st a <> VAbsent -> eval st (ECoalesce a b) = eval st a)
+              /\ (eval st a = VAbsent -> eval st (ECoalesce a b) = eval st b).
+Proof. exact (fun st a b => conj (coalesce_keeps_present st a b) (coalesce_absent st a b)). Qed.
+Print Assumptions C08_absent_coalescing.
+
 (* map literals drop absent values: no absent is ever stored through `x = {...}` *)
 Theorem C08_map_literal_holds_no_absent :
   forall st kvs m, eval st (EMapLit kvs) = VMap m -> Forall (fun kv => snd kv <> VAbsent) m.
